@@ -25,7 +25,8 @@ Inductive op :=
 | Send (m : wmsg)
 | SendRaw (payload : bytes) (tree : option jv)   (* a hand-written frame payload; for Json its value tree *)
 | Recv
-| Close.
+| Close                                          (* the writing end is DROPPED *)
+| CloseSink.                                     (* the writing end is closed (Sink::poll_close) and kept *)
 
 Inductive obs :=
 | OEvents (l : list event)      (* what a recording serde::Serializer saw for this message *)
@@ -34,6 +35,7 @@ Inductive obs :=
 | ORecvErr                      (* an Err item (a payload the codec rejects); the stream goes on *)
 | OStreamErr                    (* the framing layer failed; the stream is over *)
 | OEnd                          (* end-of-stream *)
+| OShut                         (* the close reached the byte stream: AsyncWrite::poll_shutdown was called *)
 | OSent | OFull | OGone | OPending
 | OTooBig                       (* the encoder refused the frame *)
 | ONoEncoding.                  (* the model cannot encode this value (never observed) *)
@@ -51,7 +53,7 @@ Definition obs_eqb (a b : obs) : bool :=
   | OEvents x, OEvents y => list_eqb event_eqb x y
   | OFrame x, OFrame y => bytes_eqb x y
   | ORecv x, ORecv y => wmsg_eqb x y
-  | ORecvErr, ORecvErr | OStreamErr, OStreamErr | OEnd, OEnd | OSent, OSent | OFull, OFull
+  | ORecvErr, ORecvErr | OStreamErr, OStreamErr | OEnd, OEnd | OShut, OShut | OSent, OSent | OFull, OFull
   | OGone, OGone | OPending, OPending | OTooBig, OTooBig | ONoEncoding, ONoEncoding => true
   | _, _ => false
   end.
@@ -176,6 +178,13 @@ Definition step (c : cfg) (c2s : bool) (s : st) (o : op) : st * list obs :=
       let outs := read_stream max_frame_default (split_chunks (chunks c) stream) in
       ({| written := written s; closed := true; chan := chan s |},
        decode_outs (codec c) c2s outs (written s))
+    (* serde_transport poll_close = flush everything, then shut the byte stream down: the medium
+       signals the half-close, so the reader sees what Close (a drop) shows, after OShut *)
+    | CloseSink =>
+      let stream := cut_stream (cut c) (map fst (written s)) in
+      let outs := read_stream max_frame_default (split_chunks (chunks c) stream) in
+      ({| written := written s; closed := true; chan := chan s |},
+       OShut :: decode_outs (codec c) c2s outs (written s))
     end
   else
     match o with
@@ -185,6 +194,14 @@ Definition step (c : cfg) (c2s : bool) (s : st) (o : op) : st * list obs :=
               ({| written := written s; closed := closed s; chan := q |}, map ch_obs_to_obs l)
     | Close => let '(q, l) := ch_step (chan_cap (codec c)) (chan s) ChDropTx in
                ({| written := written s; closed := closed s; chan := q |}, map ch_obs_to_obs l)
+    (* bounded: futures Sender::poll_close closes the channel (the peer sees the end once the queue
+       is drained); unbounded: "UnboundedSender can't initiate closure": nothing happens *)
+    | CloseSink =>
+      match codec c with
+      | TBounded _ => let '(q, l) := ch_step (chan_cap (codec c)) (chan s) ChDropTx in
+                      ({| written := written s; closed := closed s; chan := q |}, map ch_obs_to_obs l)
+      | _ => (s, [])
+      end
     | SendRaw _ _ => (s, [])
     end.
 
@@ -233,6 +250,9 @@ Fixpoint collect (c : tcodec) (c2s : bool) (ops : list op) (tr : list (list obs)
   match ops, tr with
   | [], [] => Some ([], None, [], [])
   | Close :: ops', l :: tr' => Some ([], Some l, ops', tr')
+  (* a close must reach the byte stream; what the reader then yields is judged as for a drop *)
+  | CloseSink :: ops', l :: tr' =>
+    match l with OShut :: l' => Some ([], Some l', ops', tr') | _ => None end
   | o :: ops', l :: tr' =>
     match collect c c2s ops' tr' with
     | None => None
@@ -272,8 +292,14 @@ Definition framed_strict_ok (c : cfg) (ops : list op) (tr : list (list obs)) : b
     forallb (fun l => match l with [] => true | _ => false end) rt
   end.
 
-Definition to_ch_op (o : op) : option (ch_op wmsg) :=
-  match o with Send m => Some (ChSend m) | Recv => Some ChRecv | Close => Some ChDropTx | SendRaw _ _ => None end.
+(* where the medium can signal a close (bounded) the monitor treats it like a drop: end-of-stream is
+   owed once the queue is drained; on the unbounded channel a close is a no-op by design *)
+Definition to_ch_op (cd : tcodec) (o : op) : option (ch_op wmsg) :=
+  match o with
+  | Send m => Some (ChSend m) | Recv => Some ChRecv | Close => Some ChDropTx
+  | CloseSink => match cd with TBounded _ => Some ChDropTx | _ => None end
+  | SendRaw _ _ => None
+  end.
 Definition to_ch_obs (o : obs) : option (ch_obs wmsg) :=
   match o with
   | OSent => Some ChSent | OFull => Some ChFull | OGone => Some ChGone
@@ -283,14 +309,14 @@ Definition to_ch_obs (o : obs) : option (ch_obs wmsg) :=
 Fixpoint omap_list {A B} (f : A -> option B) (l : list A) : option (list B) :=
   match l with [] => Some [] | x :: r => ocons (f x) (omap_list f r) end.
 
-Fixpoint chan_view (ops : list op) (tr : list (list obs)) : option (list (ch_op wmsg) * list (list (ch_obs wmsg))) :=
+Fixpoint chan_view (cd : tcodec) (ops : list op) (tr : list (list obs)) : option (list (ch_op wmsg) * list (list (ch_obs wmsg))) :=
   match ops, tr with
   | [], [] => Some ([], [])
   | o :: ops', l :: tr' =>
-    match chan_view ops' tr' with
+    match chan_view cd ops' tr' with
     | None => None
     | Some (co, ct) =>
-      match to_ch_op o with
+      match to_ch_op cd o with
       | None => match l with [] => Some (co, ct) | _ => None end
       | Some o' => match omap_list to_ch_obs l with Some l' => Some (o' :: co, l' :: ct) | None => None end
       end
@@ -300,7 +326,7 @@ Fixpoint chan_view (ops : list op) (tr : list (list obs)) : option (list (ch_op 
 
 Definition wire_strict_ok (c : cfg) (ops : list op) (tr : list (list obs)) : bool :=
   if is_framed (codec c) then framed_strict_ok c ops tr
-  else match chan_view ops tr with
+  else match chan_view (codec c) ops tr with
        | Some (co, ct) => fifo_ok wmsg_eqb co ct
        | None => false
        end.
@@ -328,7 +354,7 @@ Definition framed_ok (c : cfg) (ops : list op) (tr : list (list obs)) : bool :=
 
 Definition c15_ok (c : cfg) (ops : list op) (tr : list (list obs)) : bool :=
   if is_framed (codec c) then framed_ok c ops tr
-  else match chan_view ops tr with
+  else match chan_view (codec c) ops tr with
        | Some (co, ct) => fifo_ok wmsg_eqb co ct
        | None => false
        end.
